@@ -189,6 +189,119 @@ void c07(Tape& t, Ctx& ctx) {
   }
 }
 
+
+// ===================================================================================== C07x: non-FD cross-check (identity maps)
+// The gradient is re-derived without finite differences and without library code on the oracle side: the reference minimiser
+// (R2), the user's cost gradients at the reference states, the documented quadrature, and the reference Jacobian (R4).
+void c07x(Tape& t, Ctx& ctx) {
+  int N = t.pickw({2, 2, 3, 2, 1, 1}) + 1;
+  double tsc;
+  Problem p = gen_problem(t, N, &tsc);
+  unsigned flagbits = (unsigned)t.range(0, 255);
+  double rho = t.flag() ? 0.0 : std::exp2(t.sym(4));
+  static const int Ks[] = {1, 2, 3, 4, 5, 8, 16, 64};
+  int K = Ks[t.range(0, 7)];
+  double sig = std::exp((std::log(*std::min_element(p.T.begin(), p.T.end())) + std::log(*std::max_element(p.T.begin(), p.T.end()))) / 2);
+  Costs costs = gen_costs(t, sig);
+  double rho_eff = rho * std::pow(sig, 2 * S - 1) / 64.0;
+  OptI opt; IdentityTimeMap tm;
+  VCHECK(ctx, opt.setInitState(p.T, p.P, p.t0, p.bc), "init-rejected", "valid problem rejected");
+  configure(opt, p, flagbits, rho_eff, K);
+  Eigen::VectorXd x = gen_x(t, opt, tm, N);
+  const int n = (int)x.size();
+  std::string who = std::string(oname()) + " dim=" + std::to_string(D) + " N=" + std::to_string(N) + " K=" + std::to_string(K) + " maps=IdentityTime+Identity flags=" + flags_str(flagbits) + " rho=" + g6(rho_eff);
+  if (ctx.want_desc) ctx.desc << "\"order\": \"" << oname() << "\", \"dim\": " << D << ", \"N\": " << N << ", \"K\": " << K << ", \"flags\": \"" << flags_str(flagbits) << "\", \"rho\": " << g6(rho_eff) << ", \"t0\": " << g17(p.t0) << ", \"oracle\": \"reference Jacobian\"";
+  ctx.label(rho == 0 ? "rho=0" : "rho>0"); ctx.label("K=" + std::to_string(K));
+  Eigen::VectorXd g;
+  typename OptI::Workspace ws;
+  double c0 = opt.evaluate(x, g, costs.tc, costs.wc, costs.rc, &ws);
+  (void)c0;
+  // decode by the documented layout
+  LayoutModel L;
+  L.build(N, D, S, flags_from_bits(flagbits), [&](int) { return D; });
+  VCHECK(ctx, L.total == n, "dimension", who << ": decision vector has " << n << " entries, documented layout " << L.total);
+  SplineCase<D> sc; sc.s = S; sc.N = N; sc.T.resize(N); sc.P = p.P; sc.bc = p.bc; sc.t0 = p.t0;
+  for (int i = 0; i < N; ++i) sc.T[i] = x(i);
+  for (size_t k = 0; k < L.point_index.size(); ++k) for (int d = 0; d < D; ++d) sc.P(L.point_index[k], d) = x(L.point_offset[k] + d);
+  { int off = L.deriv_offset; for (auto& b : L.dblocks) { for (int d = 0; d < D; ++d) sc.bc_field(b.first, b.second)(d) = x(off + d); off += D; } }
+  RefSpline ref;
+  ref.solve_problem(sc.ref_problem());
+  if (!ref.ok) { ctx.label("oracle-inconclusive(R2 residual)"); return; }
+  ref.jacobian();
+  // reference partials of the cost w.r.t. coefficients and durations
+  MatL gC = MatL::Zero(NC * N, D); VecL gT = VecL::Zero(N);
+  MatL aC = MatL::Zero(NC * N, D); VecL aT = VecL::Zero(N);   // sums of absolute terms (for sigma)
+  std::vector<ld> explicit_t(N, 0), explicit_abs(N, 0);
+  ld elapsed = 0;
+  for (int i = 0; i < N; ++i) {
+    ld Ti = sc.T[i];
+    for (int k = 0; k <= K; ++k) {
+      ld alpha = (ld)k / K, tl = alpha * Ti, w = ((k == 0 || k == K) ? 0.5L : 1.0L) * Ti / K;
+      Vec st[6];
+      for (int m = 0; m < 6; ++m) for (int d = 0; d < D; ++d) st[m](d) = (double)ref_poly_eval([&](int q) { return ref.C(i * NC + q, d); }, NC, tl, m).value;
+      Vec gp, gv, ga, gj, gs; double gt;
+      double tg = (double)((ld)p.t0 + elapsed + tl);
+      double val = costs.rc((double)tl, tg, i, st[0], st[1], st[2], st[3], st[4], gp, gv, ga, gj, gs, gt);
+      const Vec* gr[5] = {&gp, &gv, &ga, &gj, &gs};
+      for (int m = 0; m < 5; ++m)
+        for (int q = m; q < NC; ++q) {
+          ld basis = ff(q, m) * RefSpline::ipow(tl, q - m);
+          for (int d = 0; d < D; ++d) { gC(i * NC + q, d) += w * basis * (ld)(*gr[m])(d); aC(i * NC + q, d) += fabsl(w * basis * (ld)(*gr[m])(d)); }
+        }
+      ld drift = 0, drift_abs = 0;
+      for (int m = 0; m < 5; ++m) for (int d = 0; d < D; ++d) { drift += (ld)(*gr[m])(d) * (ld)st[m + 1](d); drift_abs += fabsl((ld)(*gr[m])(d) * (ld)st[m + 1](d)); }
+      ld wk = ((k == 0 || k == K) ? 0.5L : 1.0L) / K;
+      gT(i) += wk * (ld)val + w * alpha * (drift + (ld)gt);
+      aT(i) += fabsl(wk * (ld)val) + w * alpha * (drift_abs + fabsl((ld)gt));
+      explicit_t[i] += w * (ld)gt; explicit_abs[i] += fabsl(w * (ld)gt);
+    }
+    elapsed += Ti;
+  }
+  // explicit global-time dependence of later segments
+  { ld acc = 0, acca = 0; for (int i = N - 1; i > 0; --i) { acc += explicit_t[i]; acca += explicit_abs[i]; gT(i - 1) += acc; aT(i - 1) += acca; } }
+  // user time cost and waypoint cost
+  Eigen::VectorXd tg_(N); std::vector<double> Tv = sc.T;
+  costs.tc(Tv, tg_);
+  for (int i = 0; i < N; ++i) { gT(i) += (ld)tg_(i); aT(i) += fabsl((ld)tg_(i)); }
+  Eigen::MatrixXd wq = Eigen::MatrixXd::Zero(N + 1, D);
+  { MatrixType Pd = sc.P; costs.wc(Pd, wq); }
+  // energy
+  VecL Tl(N); for (int i = 0; i < N; ++i) Tl(i) = sc.T[i];
+  if (rho_eff > 0) {
+    RefEnergy re = ref_energy(ref.C, Tl, S, D, true);
+    gC += (ld)rho_eff * re.dC; aC += (ld)rho_eff * re.dC.cwiseAbs();
+    gT += (ld)rho_eff * re.dT; aT += (ld)rho_eff * re.dT_abs;
+  }
+  RefSpline::Adjoint ad = ref.adjoint(gC, gT);
+  RefSpline::Adjoint ab = ref.adjoint(aC, aT);   // condition-aware scale from the absolute partials
+  const ld tau = 1e-7L;
+  const ld tz = S == 2 ? 1e-12L : (S == 3 ? 1e-11L : 1e-10L);
+  auto cmp = [&](int slot, ld refv, ld sigma, ld nat, const std::string& name) -> bool {
+    ld e = fabsl((ld)g(slot) - refv);
+    ld allow = tau * sigma + tz * nat + 1e-280L;
+    if (sigma >= 1e-3L * nat && sigma > 0) ctx.maxi(std::string("x_err_over_sigma_") + oname(), (double)(e / sigma));
+    if (!(e <= allow)) {
+      VFAILNR(ctx, "gradient-vs-reference", who << ": gradient entry " << slot << " (" << name << ") is " << g17(g(slot)) << " but the reference (reference Jacobian applied to the user gradients and the documented quadrature) gives " << lg(refv) << " (|diff|/sigma = " << lg(sigma > 0 ? e / sigma : 0) << ")");
+      return false;
+    }
+    return true;
+  };
+  for (int i = 0; i < N; ++i) if (!cmp(i, ad.times(i), ab.times_sigma(i), ab.times_nat(i), "duration " + std::to_string(i))) return;
+  for (size_t k = 0; k < L.point_index.size(); ++k) {
+    int i = L.point_index[k];
+    for (int d = 0; d < D; ++d)
+      if (!cmp(L.point_offset[k] + d, ad.theta(i, d) + (ld)wq(i, d), ab.theta_sigma(i, d) + fabsl((ld)wq(i, d)), ab.theta_nat(i, d), "waypoint " + std::to_string(i) + " coordinate " + std::to_string(d))) return;
+  }
+  { int off = L.deriv_offset;
+    for (auto& b : L.dblocks) {
+      int row = N + 1 + (b.first ? (S - 1) : 0) + (b.second - 1);
+      for (int d = 0; d < D; ++d) if (!cmp(off + d, ad.theta(row, d), ab.theta_sigma(row, d), ab.theta_nat(row, d), std::string(b.first ? "end" : "start") + " derivative of order " + std::to_string(b.second) + " coordinate " + std::to_string(d))) return;
+      off += D;
+    } }
+  bool gt_used = costs.rc.obs != 0 || costs.rc.sn != 0 || costs.rc.lin_t != 0;
+  ctx.nontrivial = (flagbits & 0xEE) != 0 && K >= 2 && gt_used;
+}
+
 // ===================================================================================== C08
 template <class Opt, class TM, class SM>
 void c08_run(Tape& t, Ctx& ctx, Opt& opt, const TM& tm, const SM* sm, const Problem& p, const char* mapname) {
@@ -562,6 +675,7 @@ bool selftest(std::string& msg) {
 
 Registrar r07({"C07", std::string("gradient vs finite differences ") + SplineOf<VDIM, (VORDER + 1) / 2>::name() + " dim=" + std::to_string(VDIM), 500, c07_total(), c07, selftest});
 Registrar r19({"C19", std::string("checkGradients ") + SplineOf<VDIM, (VORDER + 1) / 2>::name() + " dim=" + std::to_string(VDIM), 500, 0, c19, nullptr});
+Registrar r07x({"C07x", std::string("gradient vs reference Jacobian ") + SplineOf<VDIM, (VORDER + 1) / 2>::name() + " dim=" + std::to_string(VDIM), 500, 0, c07x, nullptr});
 Registrar r08({"C08", std::string("cost decomposition ") + SplineOf<VDIM, (VORDER + 1) / 2>::name() + " dim=" + std::to_string(VDIM), 500, 0, c08, nullptr});
 
 }  // namespace oc
